@@ -213,6 +213,8 @@ static int operand_tok(struct instr *instr_buffer, char *opds, int opd_pos) {
   char *saved_opd = NULL;
   AL_VERIF_IDX(1, opd_pos, NUM_OF_OPD);
   FAIL_IF(opds[0] == ',');
+  // a trailing comma announces an operand that is missing
+  FAIL_IF(opds[0] != '\0' && opds[strlen(opds) - 1] == ',');
   // get the 1st operand
   char *all_opd = strtok_r(opds, ",", &saved_opd);
   check_for_keyword(instr_buffer, all_opd, opd_pos);
